@@ -151,7 +151,7 @@ def scenario(r, style):
 
 
 def gen(r, tier):
-    n = {"quick": 260, "search": 900, "thorough": 4000}[tier]
+    n = {"quick": 190, "search": 900, "thorough": 4000}[tier]
     cases = []
     while len(cases) < n:
         k = r.random()
